@@ -24,8 +24,8 @@ typedef booster::shared_ptr<cppcms::sessions::session_storage_factory> sfact_typ
 unsigned server_of(const std::string &key,unsigned n){   // independent re-implementation of the documented key -> server map
 	if(n == 1) return 0; unsigned h = 0; for(unsigned char c:key){ unsigned hi = h & 0xf8000000u; h <<= 5; h ^= hi >> 27; h ^= c; } return h % n;
 }
-std::string key_of(int k){ static const char *ks[] = {"k0","k1","key two","k\x01\xff\x7f bin","\x7f","a-very-long-key-0123456789-0123456789-0123456789-0123456789-0123456789"}; k = ((k % 6) + 6) % 6; return std::string(ks[k]); }
-std::string trig_of(int t){ t = ((t % 1000) + 1000) % 1000; if(t >= 100) return key_of(t-100); if(t == 7) return ""; if(t >= 50) return "trigger-" + std::to_string(t) + "-" + std::string((size_t)(t % 17),'x'); return "t" + std::to_string(t); }
+std::string key_of(int k){ static const char *ks[] = {"k0","k1","key two","k\x01\xff\x7f bin","\x7f","a-very-long-key-0123456789-0123456789-0123456789-0123456789-0123456789"}; k = ((k % 7) + 7) % 7; if(k == 6) return std::string("nul\0key",7); return std::string(ks[k]); }
+std::string trig_of(int t){ t = ((t % 1000) + 1000) % 1000; if(t >= 100) return key_of(t-100); if(t == 7) return ""; if(t == 8) return std::string("tn\0x",4); if(t >= 50) return "trigger-" + std::to_string(t) + "-" + std::string((size_t)(t % 17),'x'); return "t" + std::to_string(t); }
 std::string value_of(int opidx,int len,int fill){ std::string v = "v" + std::to_string(opidx) + ":"; if(len <= 0) return len < 0 ? v : std::string(); v += wire::gen_bytes(opidx*7+1,(size_t)len,fill); if(fill == 0 && v.size() > 4) v[3] = '\0'; return v; }
 
 struct E4 : Engine {
@@ -40,18 +40,18 @@ struct E4 : Engine {
 		int nc = 2 + r.below(2); J cl = J::arr(); for(int i=0;i<nc;i++){ J c = J::obj(); unsigned y = r.below(4); c["l1"] = y == 0 ? -1 : y == 1 ? 0 : (int)(1 + r.below(4)); c["threads"] = 1 + (int)r.below(2); c["skew_s"] = mode == "fault" && r.below(3) == 0 ? (int)r.below(7) - 3 : 0; cl.push(c); }
 		p["clients"] = cl;
 		p["p_short_read"] = r.below(2) ? (int)r.below(400) : 0; p["p_short_write"] = r.below(2) ? (int)r.below(400) : 0; p["chan_cap"] = (int)(r.below(3) == 0 ? 1 + r.below(100) : 4096 + r.below(60000));
-		int nkeys = 1 + r.below(4), ntrig = r.below(4);
+		int nkeys = 1 + r.below(4), ntrig = r.below(4); int koff = r.below(3) ? 0 : (int)r.below(7); bool nul_trig = r.below(6) == 0;
 		int nops = mode == "conc" ? 6 + r.below(thorough ? 24 : 16) : 5 + r.below(thorough ? 60 : 25);
 		J ops = J::arr();
 		for(int i=0;i<nops;i++){ J o = J::obj(); o["c"] = (int)r.below(nc); o["t"] = (int)r.below(2); unsigned y = r.below(100);
-			if(y < 34){ o["op"] = "store"; o["k"] = (int)r.below(nkeys); J tr = J::arr(); int nt = ntrig ? r.below(3) : 0; for(int k=0;k<nt;k++) tr.push((int)r.below(ntrig)); if(r.below(8) == 0) tr.push(100 + (int)r.below(nkeys)); if(r.below(25) == 0) for(int k=0;k<30;k++) tr.push(50+k); if(r.below(30) == 0) tr.push(7); o["trig"] = tr;
+			if(y < 34){ o["op"] = "store"; o["k"] = koff + (int)r.below(nkeys); J tr = J::arr(); if(nul_trig && r.below(3) == 0) tr.push(8); int nt = ntrig ? r.below(3) : 0; for(int k=0;k<nt;k++) tr.push((int)r.below(ntrig)); if(r.below(8) == 0) tr.push(100 + koff + (int)r.below(nkeys)); if(r.below(25) == 0) for(int k=0;k<30;k++) tr.push(50+k); if(r.below(30) == 0) tr.push(7); o["trig"] = tr;
 				o["dl"] = r.below(10) == 0 ? -1 : r.below(12) == 0 ? 1000000000 : 5 + (int)r.below(100); unsigned z = r.below(10); o["len"] = z == 0 ? 0 : z < 7 ? (int)r.below(60) : z < 9 ? (int)r.below(p.geti("chan_cap") < 200 ? 300 : 4000) : (int)r.below(p.geti("chan_cap") < 200 ? 600 : thorough ? 100000 : 30000); o["fill"] = (int)r.below(3); }
-			else if(y < 76){ o["op"] = "fetch"; o["k"] = (int)r.below(nkeys); o["how"] = (int)r.below(4); }
-			else if(y < 86){ o["op"] = "rise"; o["tr"] = r.below(3) == 0 ? 100 + (int)r.below(nkeys) : (ntrig ? (int)r.below(ntrig) : 100); }
+			else if(y < 76){ o["op"] = "fetch"; o["k"] = koff + (int)r.below(nkeys); o["how"] = (int)r.below(4); }
+			else if(y < 86){ o["op"] = "rise"; o["tr"] = nul_trig && r.below(2) ? 8 : r.below(3) == 0 ? 100 + koff + (int)r.below(nkeys) : (ntrig ? (int)r.below(ntrig) : 100); }
 			else if(y < 90){ o["op"] = "clear"; }
 			else if(y < 94){ o["op"] = "stats"; }
 			else if(mode != "conc"){ o["op"] = "tick"; o["s"] = 1 + (int)r.below(4); }
-			else { o["op"] = "fetch"; o["k"] = (int)r.below(nkeys); o["how"] = 0; }
+			else { o["op"] = "fetch"; o["k"] = koff + (int)r.below(nkeys); o["how"] = 0; }
 			ops.push(o); }
 		p["ops"] = ops;
 		if(mode == "fault"){ J f = J::arr(); int nf = 1 + r.below(4);
@@ -88,6 +88,17 @@ struct E4 : Engine {
 		unsigned ns = (unsigned)std::max<int64_t>(1,std::min<int64_t>(plan.geti("servers",1),3)); int sthreads = (int)std::max<int64_t>(1,std::min<int64_t>(plan.geti("server_threads",1),3));
 		int64_t now = simk::now_us()/1000000;
 		std::vector<Op> hist; CacheModel model; model.limit = 0; uint64_t clock = 0;
+		// known finding (known-findings.json, DESIGN 10.4): the wire format carries trigger lists NUL separated, a trigger name - or a key, which is
+		// its own implicit trigger - that contains a NUL byte is split by the server. A violation is attributed to it (class prefix "nul-name-")
+		// only when the failing fetch reads a key that contains NUL or was ever stored with such a trigger, or, for whole-history / whole-server
+		// verdicts (linearizability, stats, key distribution), when the plan uses such a name at all.
+		bool any_nul = false; std::set<std::string> nul_tainted; std::string fail_key; bool fail_is_fetch = false;
+		{ auto has_nul = [](const std::string &x){ return x.find('\0') != std::string::npos; }; const J &jo = plan.get("ops");
+			for(size_t i=0;i<jo.size() && i<200;i++){ const J &o = jo.a[i]; std::string k = o.gets("op"); bool n = false;
+				if(k == "rise"){ if(has_nul(trig_of((int)o.geti("tr")))) any_nul = true; continue; }
+				if(k != "store" && k != "fetch") continue; std::string key = key_of((int)o.geti("k")); if(has_nul(key)) n = true;
+				if(k == "store"){ const J &tr = o.get("trig"); for(size_t j=0;j<tr.size() && j<64;j++) if(has_nul(trig_of((int)tr.a[j].as_int()))) n = true; }
+				if(n){ any_nul = true; nul_tainted.insert(key); } } }
 		// stale detection in fault mode: for every key the set of values that were current at some time >= the start of the fetch
 		std::map<std::string,std::vector<std::string>> superseded;   // key -> values known to be dead (replaced / invalidated / lost)
 		{
@@ -124,7 +135,7 @@ struct E4 : Engine {
 				if(ops[i].kind == "stats" && ns > 1){ cnt["stats_multi_server_not_atomic"]++; continue; }   // the sum over several servers is read server by server: not an atomic snapshot, and not claimed to be
 				hist.push_back(ops[i]); } }
 			else {
-				for(size_t i=0;i<ops.size() && res.ok;i++){ Op &op = ops[i]; int w = who[i].first*2 + who[i].second;
+				for(size_t i=0;i<ops.size() && res.ok;i++){ Op &op = ops[i]; int w = who[i].first*2 + who[i].second; fail_key = op.key; fail_is_fetch = op.kind == "fetch";
 					for(auto &f:faults) if(f.at == (int)i && !f.armed){ f.armed = true; f.base = simk::stats().bytes_rx + simk::stats().bytes_tx;
 						if(f.kind == "restart"){ cnt["server_restarts"]++; servers[f.s].reset(); start_server(f.s);
 							// everything that lived on that server is lost
@@ -176,6 +187,10 @@ struct E4 : Engine {
 			if(lin.inconclusive) cnt["lin_inconclusive"]++;
 			else if(!ok){ std::string h; std::vector<Op> sorted = hist; std::sort(sorted.begin(),sorted.end(),[](const Op&a,const Op&b){ return a.inv < b.inv; }); for(auto &o:sorted) h += "  " + o.str().substr(0,160) + "\n"; res.fail("not-linearizable","no sequential order consistent with real time explains the results of the clients:\n" + h); }
 			uint64_t overlap = 0; for(size_t i=0;i<hist.size();i++) for(size_t j=i+1;j<hist.size();j++) if(hist[i].thread != hist[j].thread && hist[i].inv < hist[j].ret && hist[j].inv < hist[i].ret) overlap++; cnt["overlapping_pairs"] = (int64_t)overlap; }
+		if(!res.ok && any_nul && res.cls.compare(0,9,"sanitizer") != 0 && res.cls.compare(0,5,"crash") != 0){
+			bool whole = conc || res.cls == "stats-mismatch" || res.cls == "inconsistent-key-distribution";
+			if(whole || (fail_is_fetch && nul_tainted.count(fail_key))){ res.cls = "nul-name-" + res.cls; res.fp = "nul-name-in-key-or-trigger:" + res.fp; } }
+		if(any_nul) cnt["plans_with_nul_in_names"]++;
 		for(auto &kv:cnt) res.counters[kv.first] = (long long)kv.second;
 		res.counters["steps"] = (long long)st.steps; res.counters["switches"] = (long long)st.switches; res.counters["short_reads"] = (long long)st.short_reads; res.counters["short_writes"] = (long long)st.short_writes; res.counters["connects"] = (long long)st.connects; res.counters["resets_seen"] = (long long)st.resets;
 		res.counters["mode_" + mode] = 1;
